@@ -50,7 +50,7 @@ def enum_names(sch, tname, v, out):
     if isinstance(r, str):
         return
     if r.kind == 'enum':
-        out.append([x[0] for x in r.members if x[1] == v][0])
+        out.append([x[0] for x in r.members if x[1] == v][-1])
     elif r.kind == 'union':
         arm = [a for a in r.arms if a[2] == v[0]][0]
         enum_names(sch, arm[1], v[1], out)
